@@ -3,7 +3,7 @@ CONSTANTS
   Impls = {"plan_mutator", "msg_mutator"}
   Procs = {"identity"}
   Variants = {"FF"}
-  MaxOpsId = 8
+  MaxOpsId = 9
   MaxOpsIns = 0
   MaxGens = 0
   MaxPost = 1
